@@ -133,7 +133,7 @@ func (p *Parser) parseExpressionList() []ast.Expression {
 func isBinaryOperatorToken(t token.Token) bool {
 	switch t {
 	case token.PLUS, token.MINUS, token.ASTERISK, token.SLASH, token.PERCENT,
-		token.EQ, token.NEQ, token.LT, token.GT, token.LTE, token.GTE,
+		token.EQ, token.NEQ, token.LT, token.GT, token.LTE, token.GTE, token.NULL_SAFE_EQ,
 		token.AND, token.OR, token.CONCAT, token.DIV, token.MOD:
 		return true
 	}
